@@ -219,6 +219,48 @@ pub fn run(a: &Args, rep: &mut Report) {
             batch.clear();
         }
     }
+    // helper ids nobody registered (and, as a control, one that is registered): the interpreter's
+    // Ok/Err and the JIT's compile outcome, on every VM kind. Values are not printed (a helper may
+    // legitimately be time- or randomness-dependent); whether the call is known is what is compared.
+    if a.shard == 0 {
+        let ids: Vec<u32> = (0u32..=40).chain([63, 64, 100, 255, 256, 1000, 65535, 65536, 0x7fff_ffff, 0x8000_0000, u32::MAX]).collect();
+        for kind in crate::engines::KINDS {
+            for &id in &ids {
+                for registered in [false, true] {
+                    let prog = encode_prog(&[Insn::new(MOV64_IMM, 1, 0, 0, 1), Insn::new(MOV64_IMM, 2, 0, 0, 2), Insn::new(MOV64_IMM, 3, 0, 0, 3), Insn::new(MOV64_IMM, 4, 0, 0, 4), Insn::new(MOV64_IMM, 5, 0, 0, 5), Insn::new(CALL, 0, 0, 0, id as i32), Insn::new(EXIT, 0, 0, 0, 0)]);
+                    let mut pkt = [7u8; 16];
+                    let mut mb = [0u8; 16];
+                    let r = sys::catch(|| -> Result<String, String> {
+                        let mut vm = crate::engines::Vm::new(kind, Some(&prog), (0, 8))?;
+                        if registered {
+                            vm.register_helper(id, crate::hlp::PLAIN[3])?;
+                        }
+                        let pk = if kind == crate::engines::Kind::NoData { (std::ptr::null_mut(), 0) } else { (pkt.as_mut_ptr(), pkt.len()) };
+                        let mbp = if kind == crate::engines::Kind::Mbuff { (mb.as_mut_ptr(), mb.len()) } else { (std::ptr::null_mut(), 0) };
+                        let i = match vm.exec(pk, mbp) {
+                            Ok(_) => "Ok",
+                            Err(_) => "Err",
+                        };
+                        #[cfg(not(any(feature = "std", feature = "stdlite")))]
+                        {
+                            let _ = vm.set_jit_exec_memory(crate::exec::exec_memory(1 << 16));
+                        }
+                        let j = match vm.jit_compile() {
+                            Ok(()) => "Ok",
+                            Err(_) => "Err",
+                        };
+                        Ok(format!("interp={i} jit_compile={j}"))
+                    });
+                    let out = match r {
+                        Ok(Ok(s)) => s,
+                        Ok(Err(e)) => format!("REJECTED({})", norm_err(&e)),
+                        Err(p) => format!("PANIC({})", sys::panic_site(&p)),
+                    };
+                    line(rep, "hlp", format!("{}|call {id:#x}|registered={registered}", kind.name()), out);
+                }
+            }
+        }
+    }
     // API histories (same operations as C10): the recorded observation sequence of each history
     {
         use crate::mon_c10::{exec_history, mk_pool, Op, Ver};
@@ -266,6 +308,10 @@ pub fn run(a: &Args, rep: &mut Report) {
                             }
                             3 => {
                                 s.push_str("PANIC");
+                                break;
+                            }
+                            5 => {
+                                s.push_str("DIFFERS-FROM-FRESH-VM");
                                 break;
                             }
                             c => {
